@@ -245,6 +245,17 @@ def build_el(st, uid):
                     brs.append(lena.core.Sequence(*els))
                 else:
                     brs.append(els[0] if len(els) == 1 and b.get("bare") else els)
+            elif b["k"] == "fr":
+                els = []
+                for s in b["pre"]:
+                    if s["t"] == "count":
+                        els.append(lena.core.FillInto(lena.flow.Count(s["name"], s["c0"])))
+                    else:
+                        els.append(build_el(s, uid))
+                els.append(BlockSum(b["stop"]))
+                els.extend(build_el(s, uid) for s in b["post"])
+                brs.append(lena.core.FillRequestSeq(*els, bufsize=1, reset=False, buffer_input=True)
+                           if b.get("explicit") else tuple(els))
             elif b["k"] == "src":
                 vals = [Val(b["base"] + i) for i in range(b["m"])]
                 if b.get("pairs"):
@@ -263,6 +274,25 @@ def build_el(st, uid):
                 brs.append(lena.core.FillComputeSeq(*els) if b.get("explicit") else tuple(els))
         return lena.core.Split(brs, bufsize=st["bufsize"], copy_buf=st["copy"])
     raise ValueError(t)
+
+
+class BlockSum(object):
+    """the fill/request element of the harness: adds up the data it is filled with; `request()` yields the sum of
+    what was filled since the last request and clears it; once `stop` values were filled, `fill` raises LenaStopFill"""
+
+    def __init__(self, stop=None):
+        self.stop, self.n, self.acc = stop, 0, 0
+
+    def fill(self, value):
+        import lena.core
+        if self.stop is not None and self.n >= self.stop:
+            raise lena.core.LenaStopFill()
+        self.n += 1
+        self.acc += _dat(_split(value)[0])
+
+    def request(self):
+        acc, self.acc = self.acc, 0
+        yield Val(acc)
 
 
 class Runaway(Exception):
@@ -410,6 +440,9 @@ def _strip(st):
                 brs.append({"k": "seq", "stages": [_strip(s) for s in b["stages"]]})
             elif b["k"] == "src":
                 brs.append({"k": "src", "m": b["m"], "base": b["base"]})
+            elif b["k"] == "fr":
+                brs.append({"k": "fr", "pre": [_strip(s) for s in b["pre"]], "stop": b["stop"],
+                            "post": [_strip(s) for s in b["post"]]})
             else:
                 brs.append({"k": "fc", "pre": [_strip(s) for s in b["pre"]], "name": b["name"], "c0": b["c0"],
                             "post": [_strip(s) for s in b["post"]]})
@@ -539,8 +572,9 @@ class _RefFc(object):
         self.b = b
         self.state = state
         self.pre = [{"i": 0, "c": s.get("c0", 0)} for s in b["pre"]]
-        self.count = b["c0"]
+        self.count = b.get("c0", 0)
         self.ctx = {}
+        self.acc = 0
 
     def fill(self, v):
         """returns True if the branch needs no more values (LenaStopFill)"""
@@ -565,9 +599,17 @@ class _RefFc(object):
             elif t == "count":
                 stt["c"] += 1
                 v = _setctx(v, s["name"], stt["c"])
+        if self.b["k"] == "fr":
+            if self.b["stop"] is not None and self.count >= self.b["stop"]:
+                return True
+            self.acc += v[0]
         self.count += 1
         self.ctx = dict(v[1])
         return False
+
+    def request(self):
+        acc, self.acc = self.acc, 0
+        return ref_den(self.b["post"], [(acc, {})], self.state)
 
     def compute(self):
         self.ctx[self.b["name"]] = self.count
@@ -596,7 +638,7 @@ def ref_split(st, sf, state):
     if not brs:
         return sf
     bufsize = eff_bufsize(st)
-    active = [(b, _RefFc(b, state) if b["k"] == "fc" else None) for b in brs]
+    active = [(b, _RefFc(b, state) if b["k"] in ("fc", "fr") else None) for b in brs]
     srcvals = lambda b: [(b["base"] + i, {}) for i in range(b["m"])]
     out = []
     blocks = []
@@ -616,6 +658,17 @@ def ref_split(st, sf, state):
             elif fc is None:
                 out.extend((v, stamp) for v in ref_den(b["stages"], [v for v, _ in blk], state))
                 nxt.append((b, fc))
+            elif b["k"] == "fr":
+                # a fill/request branch is a per-block branch: what it yields for the block is handed downstream
+                # before the next block is pulled
+                stopped = False
+                for v, _ in blk:
+                    if fc.fill(v):
+                        stopped = True
+                        break
+                out.extend((v, stamp) for v in fc.request())
+                if not stopped:
+                    nxt.append((b, fc))
             else:
                 stopped = False
                 for v, _ in blk:
@@ -631,6 +684,9 @@ def ref_split(st, sf, state):
     for b, fc in active:
         if b["k"] == "src":
             out.extend((v, cf) for v in srcvals(b))
+        elif b["k"] == "fr":
+            if not blocks:
+                out.extend((v, cf) for v in fc.request())
         elif fc is not None:
             out.extend((v, cf) for v in fc.compute())
         elif not blocks:
@@ -808,6 +864,9 @@ def describe(case):
                     bs.append("(" + ",".join(d(s) for s in b["stages"]) + ")")
                 elif b["k"] == "src":
                     bs.append(f"Source({b['m']} values)")
+                elif b["k"] == "fr":
+                    bs.append("(" + ",".join([d(s) for s in b["pre"]] + [f"BlockSum(stop={b['stop']})"] +
+                                             [d(s) for s in b["post"]]) + ")")
                 else:
                     bs.append("(" + ",".join([d(s) for s in b["pre"]] + [f"Count({b['name']},{b['c0']})"] +
                                              [d(s) for s in b["post"]]) + ")")
@@ -937,6 +996,17 @@ def g_split(rng, pairs, names, infinite=False, nested=True):
             brs.append({"k": "seq", "stages": stages, "bare": rng.random() < 0.3, "explicit": rng.random() < 0.2})
         elif r0 < 0.58:
             brs.append({"k": "src", "m": rng.randint(0, 3), "base": 100 * (1 + next(names)), "pairs": pairs})
+        elif r0 < 0.74:
+            pre = []
+            for _ in range(rng.randint(0, 2)):
+                r = rng.random()
+                pre.append(g_map(rng, pairs, plain=True) if r < 0.35 else
+                           (g_filter(rng) if r < 0.6 else g_slice(rng, nonneg=True, hi=5)))
+            post = [g_map(rng, pairs, plain=True)] if rng.random() < 0.3 else []
+            if nested and rng.random() < 0.15:
+                post.append({"t": "cache"})      # a Cache outside a sequence-type branch does not demote bufsize
+            brs.append({"k": "fr", "pre": pre, "stop": rng.choice([None, None, 1, 3, 6]), "post": post,
+                        "explicit": rng.random() < 0.2})
         else:
             pre = []
             for _ in range(rng.randint(0, 2)):
@@ -951,10 +1021,13 @@ def g_split(rng, pairs, names, infinite=False, nested=True):
                     # Count.fill_into, wrapped in FillInto (a bare Count would be taken as the fill/compute element)
                     pre.append(g_count(rng, names))
             post = [g_map(rng, pairs, plain=True)] if rng.random() < 0.3 else []
+            if nested and rng.random() < 0.15:
+                post.append({"t": "cache"})      # a Cache outside a sequence-type branch does not demote bufsize
             brs.append({"k": "fc", "pre": pre, "name": "n%d" % next(names), "c0": rng.choice([0, 0, 3]), "post": post,
                         "explicit": rng.random() < 0.2})
     # bufsize=None materialises the flow: over an infinite input it never returns (documented)
-    bufsize = rng.choice([1, 2, 3, 4, 5] * 4 + [None]) if infinite else rng.choice([1, 2, 3, 4, 5, None, 1000])
+    bufsize = (rng.choice([1, 2, 3, 4, 5] * 4 + [8, None]) if infinite
+               else rng.choice([1, 2, 3, 4, 5, 1, 2, 3, 4, 5, 8, 16, None, 1000]))
     return {"t": "split", "bufsize": bufsize, "copy": True if rng.random() < 0.8 else False, "branches": brs}
 
 
